@@ -320,5 +320,31 @@ pub fn run(ctx: &Ctx) -> i32 {
         }
     }
     check::clean_work("C20");
+    // ---- Miri lane (thorough tier): the impls read size_of::<Self>() raw bytes; with fully initialised values that must be UB-free
+    if ctx.thorough() || std::env::var("VERIF_MIRI").is_ok() {
+        let sel: Vec<usize> = (0..cases.len()).filter(|k| cases[*k].body.len() < 9000).take(20).collect();
+        let munits: Vec<Unit> = sel.iter().map(|k| units[*k].clone()).collect();
+        match engine::miri_run("C20-miri", &munits) {
+            Ok((stdout, stderr, ok)) => {
+                let ran = stdout.lines().filter(|l| l.starts_with("T ")).count();
+                rep.count("miri_units_run", ran as u64);
+                let fails: Vec<&str> = stdout.lines().filter(|l| l.starts_with("F ")).collect();
+                if stderr.contains("Undefined Behavior") || !fails.is_empty() {
+                    let idx = sel[ran.min(sel.len() - 1)];
+                    rep.violations.push(Failure {
+                        msg: format!("under Miri: {} {}", stderr.lines().filter(|l| l.contains("Undefined Behavior") || l.contains("error:")).take(3).collect::<Vec<_>>().join(" | "), fails.iter().take(3).cloned().collect::<Vec<_>>().join(" ; ")),
+                        dna: trees[idx].current(),
+                        variant: "miri".into(),
+                        source: cases[idx].def.clone(),
+                        unit_body: Some(cases[idx].body.clone()),
+                    });
+                } else if !ok {
+                    rep.inconclusive.push(format!("the Miri lane did not complete: {}", stderr.lines().filter(|l| !l.trim().is_empty()).take(12).collect::<Vec<_>>().join(" / ")));
+                }
+            },
+            Err(e) => rep.inconclusive.push(e.0),
+        }
+        check::clean_work("C20-miri");
+    }
     rep.finish()
 }
